@@ -27,18 +27,57 @@ const (
 	verifC19BkNumKinds
 )
 
-func verifC19BlocksBody() {
+// scenario of C19.loaded: one block holding (optionally a transaction outside the filter universe and)
+// one transaction in every meta container variant; the v0 / protobuf variant loads 0..2 writable
+// and 0..2 readonly addresses through its address table, all combinations over {A, B, C}.
+const verifC19ScenLoaded = 99
+
+var verifC19BlocksName = "C19.blocks" // obligation id for the assertion labels
+
+var (
+	verifC19WLists  = [][]byte{nil, {1}, {3}, {3, 1}}
+	verifC19ROLists = [][]byte{nil, {1}, {2}, {3}, {3, 1}, {3, 2}}
+)
+
+func verifC19LoadedBlock(s *verifC19Slot) {
+	if verifChoice("leading_other_tx", 2) == 1 {
+		s.addTx().metaKind = verifC19MetaSerdeLatest
+	}
+	t := s.addTx()
+	if verifChoice("static_A", 2) == 1 {
+		t.key1 = 1
+	}
+	switch verifChoice("meta_variant", 4) {
+	case 0:
+		t.v0, t.lookup, t.metaKind = true, true, verifC19MetaProtobuf
+		t.loadedW = verifC19WLists[verifChoice("writable_loaded", len(verifC19WLists))]
+		t.loadedRO = verifC19ROLists[verifChoice("readonly_loaded", len(verifC19ROLists))]
+	case 1:
+		t.metaKind = verifC19MetaSerdeLatest
+	case 2:
+		t.metaKind = verifC19MetaSerdeOldest
+	default:
+		t.metaKind = verifC19MetaProtobuf // legacy message, protobuf meta without loaded addresses
+	}
+}
+
+func verifC19BlocksBody(forced int) {
 	// Scenarios: 0 plain (full window enumeration); the others use a reduced enumeration
 	// (at most one transaction per block, filters nil and [A]):
 	// 1 open-ended request, 2 stream context already cancelled, 3 a single block of up to two
 	// transactions of all six kinds (incl. undecodable bytes / unparsable meta) under all filters,
 	// 4.. the k-th Send fails.
-	scen := verifChoice("scenario", 4+verifParam("send_failures", 1))
+	scen := forced
+	if scen < 0 {
+		scen = verifChoice("scenario", 4+verifParam("send_failures", 1))
+	}
 	N := verifParam("max_slots", 2)
 	T := verifParam("max_txs", 2)
 	kinds := verifParam("kinds", 4)
 	nfilters := 5
 	switch {
+	case scen == verifC19ScenLoaded:
+		N, nfilters = 1, 4
 	case scen == 3:
 		N, T, kinds = 1, 2, int(verifC19BkNumKinds)
 	case scen != 0:
@@ -57,8 +96,15 @@ func verifC19BlocksBody() {
 	verifC19.openEnded = openEnded
 	solanatxmetaparsers.VerifParseAnyHook = verifC19ParseAnyMeta
 
-	n := verifChoice("nslots", N+1) // 0: empty range (end = start-1)
+	n := 1
+	if scen != verifC19ScenLoaded {
+		n = verifChoice("nslots", N+1) // 0: empty range (end = start-1)
+	}
 	for i := 0; i < n; i++ {
+		if scen == verifC19ScenLoaded {
+			verifC19LoadedBlock(verifC19AddSlot(verifC19Found))
+			continue
+		}
 		s := verifC19AddSlot(verifChoice("outcome", 3))
 		if s.outcome != verifC19Found {
 			continue
@@ -109,7 +155,7 @@ func verifC19BlocksBody() {
 	}
 
 	ser := &verifC19BlockStream{ctx: context.Background(), failAt: -1}
-	if scen >= 4 {
+	if scen >= 4 && scen != verifC19ScenLoaded {
 		ser.failAt = scen - 4
 	}
 	cancelled := scen == 2
@@ -155,7 +201,13 @@ func verifC19BlocksBody() {
 				if t.badWire {
 					continue
 				}
-				if inFilter(t.key1) || inFilter(t.key2) || (t.lookup && t.loaded != 0 && inFilter(t.loaded)) {
+				viaTable := false // loaded addresses are known only from a meta that parses
+				if !t.badMeta {
+					for _, l := range t.loadedAll() {
+						viaTable = viaTable || inFilter(l)
+					}
+				}
+				if inFilter(t.key1) || inFilter(t.key2) || viaTable {
 					pass = true
 				} else if t.badMeta {
 					nilMeta = true
@@ -178,11 +230,11 @@ func verifC19BlocksBody() {
 
 	err := multiForC19().StreamBlocks(req, ser)
 
-	verifAssert(err == wantErr, "C19.blocks: StreamBlocks returns the wrong error (a skipped slot must not end the stream; a broken slot, failed Send or cancelled context must)")
-	verifAssert(verifC19.getBlockCalls == wantCalls, "C19.blocks: wrong number of slots visited")
-	verifAssert(len(ser.sent) == len(want), "C19.blocks: wrong number of blocks sent")
+	verifAssert(err == wantErr, verifC19BlocksName+": StreamBlocks returns the wrong error (a skipped slot must not end the stream; a broken slot, failed Send or cancelled context must)")
+	verifAssert(verifC19.getBlockCalls == wantCalls, verifC19BlocksName+": wrong number of slots visited")
+	verifAssert(len(ser.sent) == len(want), verifC19BlocksName+": wrong number of blocks sent")
 	for i := range want {
-		verifAssert(ser.sent[i] == want[i], "C19.blocks: wrong block sent (every found block of the range passing the filter, once, ascending)")
+		verifAssert(ser.sent[i] == want[i], verifC19BlocksName+": wrong block sent (every found block of the range passing the filter, once, ascending)")
 	}
 	verifReach("end")
 }
@@ -192,5 +244,13 @@ func multiForC19() *MultiEpoch {
 }
 
 func VerifC19Blocks() {
-	verifC19BlocksBody()
+	verifC19BlocksName = "C19.blocks"
+	verifC19BlocksBody(-1)
+}
+
+// C19.loaded: the account filter of StreamBlocks over every way a block can mention an account
+// (static key, writable / readonly address loaded through an address table) and every meta container.
+func VerifC19Loaded() {
+	verifC19BlocksName = "C19.loaded"
+	verifC19BlocksBody(verifC19ScenLoaded)
 }
